@@ -996,6 +996,87 @@ func cmdMem(args []string) {
 			}
 		}, bt)
 	}
+	// window phase (not logged call by call): a sliding window over FRESH keys at a bounded live size - groups of siblings
+	// are inserted, deleted in varying orders (largest first, smallest first, inside out, random) and never seen again.
+	// Nothing of a deleted group may stay behind. Judged as tree 3.
+	window := func(ins func(g, j int), del func(g, j int), keep any) {
+		wcp := func(phase string, first bool, done int) {
+			tr.start("Checkpoint")
+			tr.fInt("t", 3)
+			tr.fStr("phase", phase)
+			tr.fBool("first", first)
+			tr.fInt("ops", done)
+			tr.fInt("heap", liveHeap())
+			tr.fInt("grown", 0)
+			tr.emit()
+		}
+		sizes := []int{5, 3, 4, 17, 5, 20, 2, 50, 5, 13}
+		round := func(g int) int {
+			n := sizes[g%len(sizes)]
+			order := make([]int, n)
+			for j := range order {
+				order[j] = j
+			}
+			switch (g / len(sizes)) % 4 {
+			case 0: // first, last, then the rest ascending
+				order[1], order[n-1] = order[n-1], order[1]
+			case 1: // descending
+				for a, b := 0, n-1; a < b; a, b = a+1, b-1 {
+					order[a], order[b] = order[b], order[a]
+				}
+			case 2:
+				r.Shuffle(n, func(a, b int) { order[a], order[b] = order[b], order[a] })
+			}
+			for j := 0; j < n; j++ {
+				ins(g, j)
+			}
+			for _, j := range order {
+				del(g, j)
+			}
+			return 2 * n
+		}
+		done, g := 0, 0
+		for ; done < *ops/20; g++ { // warm-up: pools and size classes settle
+			done += round(g)
+		}
+		wcp("window", true, done)
+		for c := 0; c < 4; c++ {
+			for lim := done + *ops/4; done < lim; g++ {
+				done += round(g)
+			}
+			wcp("window", false, done)
+		}
+		runtime.KeepAlive(keep)
+	}
+	switch d.Name() {
+	case "uint64":
+		wt := art.NewUnsignedBinaryTree[uint64, int]()
+		wt.Insert(1<<60, 0) // one permanent key: the groups hang below inner nodes, not the root
+		window(func(g, j int) { wt.Insert(uint64(g)<<16|uint64(j*5), j) }, func(g, j int) { wt.Delete(uint64(g)<<16 | uint64(j*5)) }, wt)
+	case "uint32":
+		wt := art.NewUnsignedBinaryTree[uint32, int]()
+		wt.Insert(1<<31, 0)
+		window(func(g, j int) { wt.Insert(uint32(g%(1<<22))<<8|uint32(j*5), j) }, func(g, j int) { wt.Delete(uint32(g%(1<<22))<<8 | uint32(j*5)) }, wt)
+	case "alpha/string":
+		wt := art.NewAlphaSortedTree[string, int]()
+		wt.Insert("zz", 0)
+		key := func(g, j int) string { return fmt.Sprintf("w/%07x/session-id/%c%c", g, 'A'+j/2, 'a'+j%2) }
+		window(func(g, j int) { wt.Insert(key(g, j), j) }, func(g, j int) { wt.Delete(key(g, j)) }, wt)
+	case "alpha/bytes":
+		wt := art.NewAlphaSortedTree[[]byte, int]()
+		wt.Insert([]byte("zz"), 0)
+		key := func(g, j int) []byte { return []byte(fmt.Sprintf("%06x%c", g, '0'+j)) }
+		window(func(g, j int) { wt.Insert(key(g, j), j) }, func(g, j int) { wt.Delete(key(g, j)) }, wt)
+	case "collation/string/und":
+		wt := art.NewCollationSortedTree[string, int]()
+		wt.Insert("zz", 0)
+		key := func(g, j int) string { return fmt.Sprintf("w%07x-%c%c", g, 'a'+j/3, 'a'+j%3) }
+		window(func(g, j int) { wt.Insert(key(g, j), j) }, func(g, j int) { wt.Delete(key(g, j)) }, wt)
+	case "float64":
+		wt := art.NewFloatBinaryTree[float64, int]()
+		wt.Insert(-1, 0)
+		window(func(g, j int) { wt.Insert(float64(g)*64+float64(j), j) }, func(g, j int) { wt.Delete(float64(g)*64 + float64(j)) }, wt)
+	}
 	runtime.KeepAlive(d)
 	tr.Close()
 	writeStats(*stats, Stats{Cmd: "mem", Kind: d.Name(), Lines: tr.Lines, Ops: 3 * *ops, Segments: 1, Digests: len(rec.Digests),
